@@ -135,6 +135,19 @@ class C01(Check):
 
             t._receive = rx
             t._send_chunk = tx
+            ssn0 = case.get("ssn0", 0)
+            if ssn0:
+                # origin of the stream sequence numbers (C17): every inbound stream starts expecting ssn0
+                get_stream = t._get_inbound_stream
+
+                def get_stream_at_origin(stream_id):
+                    fresh = stream_id not in t._inbound_streams
+                    st = get_stream(stream_id)
+                    if fresh:
+                        st.sequence_number = ssn0
+                    return st
+
+                t._get_inbound_stream = get_stream_at_origin
             outs = []
             for ev in case["events"]:
                 delivered.clear()
